@@ -65,7 +65,7 @@ def judge(case: dict, r: dict, ref: dict | None) -> list[tuple[str, str]]:
         return fails
     if ref is not None and ref.get("outcome") == "ok" and ref["outputs"] != r["outputs"]:
         fails.append(("outputs-differ-from-failure-free-run", f"{name}"))
-    bad = {s: st for s, st in r["statuses"].items() if st != "COMPLETED"}
+    bad = {s: st for s, st in r["statuses"].items() if st not in ("COMPLETED", "SKIPPED")}
     if bad:
         fails.append(("step-not-completed", f"{name}: {bad}"))
     conflict = lock_order_conflict(r.get("fm_events", []))
